@@ -1,8 +1,35 @@
-//! C08 — checkpointing a VM is transparent (exploration skeleton; replaced below).
+//! C08 — checkpointing a VM is transparent: serialise, deserialise with the same built-ins,
+//! continue: identical behaviour on all further input, in JSON, MessagePack and bincode.
+//!
+//! Case strings:
+//!   `tex <P1><CP><P2>`   raw TeX (`<NL>` = newline). P1 is run on a fresh `VM::<StdLibState>`
+//!        through `script::run_to_string`; then the VM is checkpointed; then P2 is pushed and run.
+//!        Four runs: no checkpoint (A), and one per format (B): serde_json, rmp-serde, bincode 2 —
+//!        driven exactly like `texlang_testing::run_serde_test` drives them. Compared: result
+//!        class of P2 (ok / error class / panic place), exact output of P2, and the final state
+//!        (every component of `StdLibState` except `time`, and the visible command map with macro
+//!        indices resolved). I vs S only (the verdict on the two observations is Lean's `same`).
+//!   `ops <ints>`         a program of modelled operations (encoding of `lean/Driver/C08.lean`:
+//!        groups, register/parameter assignments with `\global` prefixes, `\def`/`\gdef`/`\chardef`/
+//!        `\mathchardef`/`\countdef`/`\toksdef`/`\let` on control sequences and active characters,
+//!        reads) with one checkpoint marker `9`. Rendered to TeX; a read of a command is rendered
+//!        according to what the model says the command is. A vs B as above (I vs S), B's reads vs
+//!        the model's reads after `deserialize (serialize vm)` (I vs M), model with vs without
+//!        checkpoint (M vs S; impossible while `checkpoint_transparent` holds).
+//!   `names`              start-up check of `NameTableSound` on the real built-in map: every
+//!        built-in `\let` to a fresh name, every built-in variable assigned inside a group; the
+//!        serialised names are resolved through the serialised interner and must be the built-in's
+//!        own name (I vs S).
+//!   `dump <P1>`          debugging aid (never generated).
+
 use std::collections::BTreeMap;
 use texlang::vm::VM;
 use texlang_stdlib::StdLibState;
 use vh::*;
+
+// ------------------------------------------------------------------------------------------
+// Running the real code
+// ------------------------------------------------------------------------------------------
 
 #[derive(Clone, Copy, Debug, PartialEq, Eq)]
 enum Fmt {
@@ -11,6 +38,8 @@ enum Fmt {
     MsgPack,
     Bincode,
 }
+
+const FORMATS: [Fmt; 3] = [Fmt::Json, Fmt::MsgPack, Fmt::Bincode];
 
 impl Fmt {
     fn name(self) -> &'static str {
@@ -23,6 +52,7 @@ impl Fmt {
     }
 }
 
+/// Error titles → small classes (no names, no numbers).
 fn err_class(title: &str) -> String {
     let mut s = String::new();
     for c in title.chars() {
@@ -44,7 +74,7 @@ fn err_class(title: &str) -> String {
 #[derive(Clone, Debug, PartialEq, Eq)]
 enum Run {
     Ok(String),
-    Err(String, String), // class, partial output is not available
+    Err(String),
     Panic(String),
 }
 
@@ -52,8 +82,14 @@ impl Run {
     fn class(&self) -> String {
         match self {
             Run::Ok(_) => "ok".into(),
-            Run::Err(c, _) => format!("err:{c}"),
+            Run::Err(c) => format!("err:{c}"),
             Run::Panic(p) => format!("panic:{}", strip_msg(p)),
+        }
+    }
+    fn out(&self) -> &str {
+        match self {
+            Run::Ok(s) => s,
+            _ => "",
         }
     }
 }
@@ -73,16 +109,17 @@ fn run_src(vm: &mut VM<StdLibState>, name: &str, src: &str) -> Run {
     match r {
         Err(p) => Run::Panic(p),
         Ok(Ok(s)) => Run::Ok(s),
-        Ok(Err(t)) => Run::Err(err_class(&t), t),
+        Ok(Err(t)) => Run::Err(err_class(&t)),
     }
 }
 
+/// Serialise and deserialise with the same built-ins (as `texlang_testing::run_serde_test`).
 fn checkpoint(vm: VM<StdLibState>, fmt: Fmt) -> Result<VM<StdLibState>, String> {
     let built_ins = texlang_stdlib::built_in_commands::<StdLibState>;
     match fmt {
         Fmt::None => Ok(vm),
         Fmt::Json => caught(|| {
-            let s = serde_json::to_string(&vm).unwrap();
+            let s = serde_json::to_string_pretty(&vm).unwrap();
             let mut d = serde_json::Deserializer::from_str(&s);
             VM::deserialize_with_built_in_commands(&mut d, built_ins()).unwrap()
         }),
@@ -100,66 +137,1066 @@ fn checkpoint(vm: VM<StdLibState>, fmt: Fmt) -> Result<VM<StdLibState>, String> 
     }
 }
 
-fn state_json(vm: &VM<StdLibState>) -> serde_json::Value {
-    let mut v = serde_json::to_value(&vm.state).unwrap();
-    if let Some(o) = v.as_object_mut() {
-        o.remove("time");
+fn bc<T: serde::Serialize>(x: &T) -> String {
+    match bincode::serde::encode_to_vec(x, bincode::config::standard()) {
+        Ok(v) => format!("{:016x}.{}", fxhash_bytes(&v), v.len()),
+        Err(e) => format!("unserialisable:{e}"),
     }
-    v
 }
 
+fn fxhash_bytes(b: &[u8]) -> u64 {
+    let mut h: u64 = 0xcbf29ce484222325;
+    for x in b {
+        h ^= *x as u64;
+        h = h.wrapping_mul(0x100000001b3);
+    }
+    h
+}
+
+/// The visible command map, canonical: cs id → command, macro indices replaced by the macro.
+fn canon_cmds(vm: &VM<StdLibState>) -> String {
+    let v = serde_json::to_value(&vm.commands_map).unwrap_or(serde_json::Value::Null);
+    let macros = v.get("macros").and_then(|m| m.as_array()).cloned().unwrap_or_default();
+    let mut out: BTreeMap<String, String> = BTreeMap::new();
+    for field in ["commands", "active_char"] {
+        let Some(bcont) = v.get(field).and_then(|c| c.get("backing_container")).and_then(|b| b.as_object()) else {
+            continue;
+        };
+        for (k, c) in bcont {
+            let s = match c.get("Macro").and_then(|u| u.as_u64()) {
+                Some(u) => format!("Macro:{}", macros.get(u as usize).map(|m| m.to_string()).unwrap_or_default()),
+                None => c.to_string(),
+            };
+            out.insert(format!("{field}.{k}"), s);
+        }
+    }
+    let mut s = String::new();
+    for (k, c) in out {
+        s.push_str(&k);
+        s.push('=');
+        s.push_str(&c);
+        s.push(';');
+    }
+    format!("{:016x}.{}", fxhash(&s), s.len())
+}
+
+/// Final state: one digest per component (everything but `time`, which is the wall clock).
+fn final_state(vm: &VM<StdLibState>) -> BTreeMap<String, String> {
+    let s = &vm.state;
+    let mut m = BTreeMap::new();
+    m.insert("alloc".into(), bc(&s.alloc));
+    m.insert("catcode".into(), bc(&s.codes_cat_code));
+    m.insert("mathcode".into(), bc(&s.codes_math_code));
+    m.insert("conditional".into(), bc(&s.conditional));
+    m.insert("endlinechar".into(), bc(&s.end_line_char));
+    m.insert("errormode".into(), bc(&s.error_mode));
+    m.insert("input".into(), bc(&s.input));
+    m.insert("job".into(), bc(&s.job));
+    m.insert("prefix".into(), bc(&s.prefix));
+    m.insert("count".into(), bc(&s.registers_i32));
+    m.insert("dimen".into(), bc(&s.registers_scaled));
+    m.insert("skip".into(), bc(&s.registers_glue));
+    m.insert("toks".into(), bc(&s.registers_token_list));
+    m.insert("repl".into(), bc(&s.repl));
+    m.insert("tracingmacros".into(), bc(&s.tracing_macros));
+    m.insert("commands".into(), canon_cmds(vm));
+    m
+}
+
+#[derive(Clone, Debug)]
 struct Obs {
     r1: Run,
-    ck: Option<String>, // checkpoint panic
+    ck: Option<String>, // the checkpoint panicked
     r2: Option<Run>,
-    fin: Option<serde_json::Value>,
+    fin: BTreeMap<String, String>,
 }
 
 fn run_pair(p1: &str, p2: &str, fmt: Fmt) -> Obs {
     let mut vm = new_vm();
     let r1 = run_src(&mut vm, "p1.tex", p1);
     if !matches!(r1, Run::Ok(_)) {
-        return Obs { r1, ck: None, r2: None, fin: None };
+        return Obs { r1, ck: None, r2: None, fin: BTreeMap::new() };
     }
     let mut vm = match checkpoint(vm, fmt) {
         Ok(vm) => vm,
-        Err(p) => return Obs { r1, ck: Some(p), r2: None, fin: None },
+        Err(p) => return Obs { r1, ck: Some(p), r2: None, fin: BTreeMap::new() },
     };
     let r2 = run_src(&mut vm, "p2.tex", p2);
-    let fin = caught(|| state_json(&vm)).ok();
+    let fin = caught(|| final_state(&vm)).unwrap_or_default();
     Obs { r1, ck: None, r2: Some(r2), fin }
 }
 
-fn diff_components(a: &serde_json::Value, b: &serde_json::Value) -> Vec<String> {
-    let mut v = vec![];
-    if let (Some(a), Some(b)) = (a.as_object(), b.as_object()) {
-        for (k, x) in a {
-            if b.get(k) != Some(x) {
-                v.push(k.clone());
-            }
-        }
+/// A and the three B runs, each on its own thread (a VM is not `Send`; its observation is).
+fn run_all(p1: &str, p2: &str) -> (Obs, Vec<(Fmt, Obs)>) {
+    std::thread::scope(|s| {
+        let ha = s.spawn(|| run_pair(p1, p2, Fmt::None));
+        let hs: Vec<_> = FORMATS.iter().map(|&f| (f, s.spawn(move || run_pair(p1, p2, f)))).collect();
+        let a = ha.join().unwrap();
+        let bs = hs.into_iter().map(|(f, h)| (f, h.join().unwrap())).collect();
+        (a, bs)
+    })
+}
+
+fn hex(s: &str) -> String {
+    if s.is_empty() {
+        return "-".into();
     }
-    v
+    s.bytes().map(|b| format!("{b:02x}")).collect()
+}
+
+/// The canonical observation of what happened from the checkpoint on, as driver words.
+fn obs_words(o: &Obs) -> String {
+    let mut w = vec![];
+    match (&o.ck, &o.r2) {
+        (Some(p), _) => w.push(format!("ckpanic:{}", strip_msg(p).replace(' ', "_"))),
+        (None, Some(r)) => {
+            w.push(r.class().replace(' ', "_"));
+            w.push(hex(r.out()));
+        }
+        (None, None) => w.push("none".into()),
+    }
+    for (k, v) in &o.fin {
+        w.push(format!("{k}={v}"));
+    }
+    w.join(" ")
+}
+
+fn strip_ws(s: &str) -> String {
+    s.chars().filter(|c| !c.is_whitespace()).collect()
+}
+
+/// Classify the difference between A and B (the identity of the defect).
+fn diff_signature(a: &Obs, b: &Obs) -> Option<(Kind, String, String)> {
+    if let Some(p) = &b.ck {
+        return Some((Kind::ImplPanic, format!("checkpoint panics at {}", strip_msg(p)), p.clone()));
+    }
+    let (ra, rb) = (a.r2.as_ref()?, b.r2.as_ref()?);
+    if ra.class() != rb.class() {
+        let kind = if matches!(rb, Run::Panic(_)) { Kind::ImplPanic } else { Kind::ImplVsSpec };
+        return Some((
+            kind,
+            format!("after the checkpoint: {} without, {} with", ra.class(), rb.class()),
+            format!("without checkpoint: {ra:?}; with: {rb:?}"),
+        ));
+    }
+    if ra.out() != rb.out() {
+        let sig = if strip_ws(ra.out()) == strip_ws(rb.out()) {
+            "output differs in white space only"
+        } else {
+            "output differs"
+        };
+        return Some((Kind::ImplVsSpec, sig.into(), format!("without checkpoint: {:?}; with: {:?}", ra.out(), rb.out())));
+    }
+    let comps: Vec<&str> = a
+        .fin
+        .iter()
+        .filter(|(k, v)| b.fin.get(*k) != Some(v))
+        .map(|(k, _)| k.as_str())
+        .collect();
+    if !comps.is_empty() {
+        return Some((
+            Kind::ImplVsSpec,
+            format!("final state differs: {}", comps.join(",")),
+            format!("components {:?} of the final state differ (same output {:?})", comps, ra.out()),
+        ));
+    }
+    None
 }
 
 fn decode(s: &str) -> String {
     s.replace("<NL>", "\n")
 }
 
+// ------------------------------------------------------------------------------------------
+// Modelled operations
+// ------------------------------------------------------------------------------------------
+
+#[derive(Clone, Debug, PartialEq)]
+enum MOp {
+    Begin,
+    End,
+    Assign { pre: i64, kind: i64, idx: i64, val: i64 },
+    Define { pre: i64, tk: i64, tn: i64, dk: i64, a: i64, b: i64 },
+    ReadVar { kind: i64, idx: i64 },
+    ReadCmd { tk: i64, tn: i64 },
+    Ckpt,
+}
+
+fn enc_ops(ops: &[MOp]) -> Vec<i64> {
+    let mut v = vec![];
+    for o in ops {
+        match o {
+            MOp::Begin => v.push(0),
+            MOp::End => v.push(1),
+            MOp::Assign { pre, kind, idx, val } => v.extend([2, *pre, *kind, *idx, *val]),
+            MOp::Define { pre, tk, tn, dk, a, b } => v.extend([3, *pre, *tk, *tn, *dk, *a, *b]),
+            MOp::ReadVar { kind, idx } => v.extend([5, 0, *kind, *idx]),
+            MOp::ReadCmd { tk, tn } => v.extend([5, 1, *tk, *tn]),
+            MOp::Ckpt => v.push(9),
+        }
+    }
+    v
+}
+
+fn dec_ops(v: &[i64]) -> Option<Vec<MOp>> {
+    let mut i = 0;
+    let mut ops = vec![];
+    while i < v.len() {
+        let n = |k: usize| v.get(i + k).copied();
+        match v[i] {
+            0 => {
+                ops.push(MOp::Begin);
+                i += 1
+            }
+            1 => {
+                ops.push(MOp::End);
+                i += 1
+            }
+            2 => {
+                ops.push(MOp::Assign { pre: n(1)?, kind: n(2)?, idx: n(3)?, val: n(4)? });
+                i += 5
+            }
+            3 => {
+                ops.push(MOp::Define { pre: n(1)?, tk: n(2)?, tn: n(3)?, dk: n(4)?, a: n(5)?, b: n(6)? });
+                i += 7
+            }
+            5 => {
+                match n(1)? {
+                    0 => ops.push(MOp::ReadVar { kind: n(2)?, idx: n(3)? }),
+                    1 => ops.push(MOp::ReadCmd { tk: n(2)?, tn: n(3)? }),
+                    _ => return None,
+                }
+                i += 4
+            }
+            9 => {
+                ops.push(MOp::Ckpt);
+                i += 1
+            }
+            _ => return None,
+        }
+    }
+    Some(ops)
+}
+
+/// Active characters used as targets (made active by the preamble of P1).
+const ACTIVE: &[char] = &['~', '!', '?', '@'];
+/// Primitives of `C08.stdTable`.
+fn prim_name(p: i64) -> Option<&'static str> {
+    Some(match p {
+        0 => "relax",
+        1 => "count",
+        2 => "the",
+        3 => "iftrue",
+        4 => "catcode",
+        20 => "globaldefs",
+        21 => "endlinechar",
+        22 => "year",
+        23 => "month",
+        24 => "day",
+        25 => "time",
+        _ => return None,
+    })
+}
+const PARAMS: &[&str] = &["globaldefs", "endlinechar", "year", "month", "day", "time"];
+
+fn target(tk: i64, tn: i64) -> String {
+    if tk == 1 {
+        ACTIVE[(tn as usize) % ACTIVE.len()].to_string()
+    } else {
+        // \ca, \cb, …
+        let mut s = String::from("\\c");
+        let mut n = tn as u64;
+        loop {
+            s.push((b'a' + (n % 26) as u8) as char);
+            n /= 26;
+            if n == 0 {
+                break;
+            }
+        }
+        s
+    }
+}
+
+fn var_name(kind: i64, idx: i64) -> String {
+    match kind {
+        0 => format!("\\count {idx}"),
+        1 => format!("\\dimen {idx}"),
+        2 => format!("\\skip {idx}"),
+        3 => format!("\\toks {idx}"),
+        4 => format!("\\catcode {}", 200 + idx),
+        5 => format!("\\mathcode {}", 200 + idx),
+        _ => format!("\\{}", PARAMS[(idx as usize) % PARAMS.len()]),
+    }
+}
+
+/// How a value of the given kind is written in an assignment and printed by `\the`.
+fn val_assign(kind: i64, val: i64) -> String {
+    match kind {
+        1 | 2 => format!("={val}pt "),
+        3 => format!("={{{val}}}"),
+        _ => format!("={val} "),
+    }
+}
+fn val_shown(kind: i64, val: i64) -> String {
+    match kind {
+        1 | 2 => format!("{val}.0pt"),
+        _ => format!("{val}"),
+    }
+}
+/// What `\the` prints for a variable that was never assigned (`None`: depends on the clock).
+fn default_shown(kind: i64, idx: i64) -> Option<String> {
+    Some(match kind {
+        0 => "0".into(),
+        1 | 2 => "0.0pt".into(),
+        3 => "".into(),
+        4 => "12".into(),
+        5 => "0".into(),
+        _ => match idx {
+            0 => "0".into(),
+            1 => "13".into(),
+            _ => return None,
+        },
+    })
+}
+
+/// One rendered op: TeX text, and for reads what the model expects between the brackets
+/// (`None`: not predicted by the model — compared between the runs only).
+struct Rendered {
+    tex: String,
+    probe: bool,
+    expect: Option<String>,
+}
+
+fn model_val(word: &str, kind: i64, idx: i64) -> Option<String> {
+    if word == "d" {
+        default_shown(kind, idx)
+    } else {
+        word.strip_prefix('i').and_then(|x| x.parse::<i64>().ok()).map(|x| val_shown(kind, x))
+    }
+}
+
+fn render_op(op: &MOp, model: &str, last: bool) -> Rendered {
+    let plain = |tex: String| Rendered { tex, probe: false, expect: None };
+    match op {
+        MOp::Begin => plain("{".into()),
+        MOp::End => plain("}".into()),
+        MOp::Ckpt => plain(String::new()),
+        MOp::Assign { pre, kind, idx, val } => {
+            plain(format!("{}{}{}", "\\global".repeat(*pre as usize), var_name(*kind, *idx), val_assign(*kind, *val)))
+        }
+        MOp::Define { pre, tk, tn, dk, a, b } => {
+            let t = target(*tk, *tn);
+            let g = "\\global".repeat(*pre as usize);
+            plain(match dk {
+                0 => format!("{g}\\def{t}{{(m{a})}}"),
+                1 => format!("{g}\\gdef{t}{{(m{a})}}"),
+                2 => format!("{g}\\chardef{t}={a} "),
+                3 => format!("{g}\\mathchardef{t}={a} "),
+                4 => format!("{g}\\countdef{t}={a} "),
+                5 => format!("{g}\\toksdef{t}={a} "),
+                6 => format!("{g}\\let{t}={} ", (*a as u8) as char),
+                7 => format!("{g}\\let{t}=\\relax "),
+                9 => format!("{g}\\let{t}={} ", target(*a, *b)),
+                _ => format!("{g}\\let{t}=\\{} ", prim_name(*a).unwrap_or("relax")),
+            })
+        }
+        MOp::ReadVar { kind, idx } => Rendered {
+            tex: format!("[\\the{}]", var_name(*kind, *idx)),
+            probe: true,
+            expect: model_val(model, *kind, *idx),
+        },
+        MOp::ReadCmd { tk, tn } => {
+            let t = target(*tk, *tn);
+            let sp = if *tk == 0 { " " } else { "" };
+            let (tex, expect): (String, Option<String>) = if model == "?" {
+                // undefined: only observable as a fatal error, so only as the last thing
+                if last {
+                    (format!("[{t}{sp}]"), None)
+                } else {
+                    return plain(String::new());
+                }
+            } else if let Some(n) = model.strip_prefix('m') {
+                (format!("[{t}{sp}]"), Some(format!("(m{n})")))
+            } else if let Some(c) = model.strip_prefix('c').or_else(|| model.strip_prefix('t')) {
+                let ch = c.parse::<u8>().map(|x| (x as char).to_string()).ok();
+                (format!("[{t}{sp}]"), ch)
+            } else if let Some(n) = model.strip_prefix('M') {
+                (format!("[\\the{t}{sp}]"), Some(n.to_string()))
+            } else if let Some(rest) = model.strip_prefix('v') {
+                // v<kind>.<idx>=<d|x>
+                let (ki, val) = rest.split_once('=').unwrap_or((rest, "d"));
+                let (k, i) = ki.split_once('.').unwrap_or(("0", "0"));
+                let (k, i) = (k.parse::<i64>().unwrap_or(0), i.parse::<i64>().unwrap_or(0));
+                let w = if val == "d" { "d".to_string() } else { format!("i{val}") };
+                (format!("[\\the{t}{sp}]"), model_val(&w, k, i))
+            } else if let Some(p) = model.strip_prefix('P') {
+                match p.parse::<i64>().unwrap_or(-1) {
+                    0 => (format!("[{t}{sp}]"), Some(String::new())),
+                    1 => (format!("[\\the{t}{sp}7 ]"), None),
+                    2 => (format!("[{t}{sp}\\count 7 ]"), None),
+                    3 => (format!("[{t}{sp}y\\fi]"), Some("y".into())),
+                    4 => (format!("[\\the{t}{sp}65 ]"), Some("11".into())),
+                    _ => (format!("[\\the{t}{sp}]"), None),
+                }
+            } else {
+                return plain(String::new());
+            };
+            Rendered { tex, probe: true, expect }
+        }
+    }
+}
+
+/// The bracketed probe results in an output, white space removed.
+fn brackets(out: &str) -> Vec<String> {
+    let s = strip_ws(out);
+    let mut v = vec![];
+    let mut cur: Option<String> = None;
+    for c in s.chars() {
+        match (c, &mut cur) {
+            ('[', None) => cur = Some(String::new()),
+            (']', Some(x)) => {
+                v.push(std::mem::take(x));
+                cur = None;
+            }
+            (c, Some(x)) => x.push(c),
+            _ => {}
+        }
+    }
+    v
+}
+
+// ------------------------------------------------------------------------------------------
+// Generators
+// ------------------------------------------------------------------------------------------
+
+fn gen_val(kind: i64, rng: &mut Rng) -> i64 {
+    match kind {
+        0 => *rng.pick(&[0i64, 1, -1, 7, 42, -300, 2147483647, -2147483647]),
+        1 | 2 => *rng.pick(&[0i64, 1, -1, 5, 100, -16000, 16000]),
+        3 => rng.range(-9, 99),
+        4 => *rng.pick(&[0i64, 7, 9, 11, 12, 13, 14, 15]),
+        5 => *rng.pick(&[0i64, 1, 291, 32767, 32768]),
+        _ => 0,
+    }
+}
+
+fn gen_assign(rng: &mut Rng, depth: usize) -> MOp {
+    let kind = *rng.pick(&[0i64, 0, 0, 1, 2, 3, 4, 5, 6]);
+    let pre = if depth > 0 && rng.chance(1, 3) { rng.range(1, 2) } else if rng.chance(1, 10) { 1 } else { 0 };
+    if kind == 6 {
+        let idx = *rng.pick(&[0i64, 0, 0, 1, 2, 3, 4, 5]);
+        let val = match idx {
+            0 => *rng.pick(&[-1i64, 0, 0, 1, 1]),
+            1 => *rng.pick(&[-1i64, 13, 32]),
+            _ => rng.range(-5, 3000),
+        };
+        MOp::Assign { pre, kind, idx, val }
+    } else {
+        MOp::Assign { pre, kind, idx: rng.range(0, 3), val: gen_val(kind, rng) }
+    }
+}
+
+fn gen_target(rng: &mut Rng) -> (i64, i64) {
+    if rng.chance(1, 3) {
+        (1, rng.range(0, ACTIVE.len() as i64 - 1))
+    } else {
+        (0, rng.range(0, 4))
+    }
+}
+
+fn gen_define(rng: &mut Rng, depth: usize) -> MOp {
+    let (tk, tn) = gen_target(rng);
+    let dk = *rng.pick(&[0i64, 0, 0, 1, 2, 3, 4, 4, 5, 6, 7, 9, 9, 9, 10, 10]);
+    // \global\chardef / \global\mathchardef are C01-c's business: never prefixed here
+    let pre = if dk == 2 || dk == 3 {
+        0
+    } else if depth > 0 && rng.chance(1, 3) {
+        rng.range(1, 2)
+    } else if rng.chance(1, 10) {
+        1
+    } else {
+        0
+    };
+    let (a, b) = match dk {
+        0 | 1 => (rng.range(0, 5), 0),
+        2 | 6 => (rng.range(65, 90), 0),
+        3 => (*rng.pick(&[0i64, 1, 291, 32767]), 0),
+        4 | 5 => (rng.range(0, 3), 0),
+        9 => gen_target(rng),
+        10 => (*rng.pick(&[0i64, 1, 2, 3, 4, 20, 21, 22, 25]), 0),
+        _ => (0, 0),
+    };
+    MOp::Define { pre, tk, tn, dk, a, b }
+}
+
+fn gen_read(rng: &mut Rng) -> MOp {
+    if rng.chance(1, 2) {
+        let (tk, tn) = gen_target(rng);
+        MOp::ReadCmd { tk, tn }
+    } else {
+        let kind = *rng.pick(&[0i64, 0, 1, 2, 3, 4, 5, 6]);
+        let idx = if kind == 6 { *rng.pick(&[0i64, 1, 2, 5]) } else { rng.range(0, 3) };
+        MOp::ReadVar { kind, idx }
+    }
+}
+
+/// P1: random ops leaving `depth` groups open; P2: reads, then every group closed with reads
+/// after each `}` (so that restored values and definitions are observable), sometimes more
+/// definitions and assignments in between.
+fn gen_ops(rng: &mut Rng, size: usize) -> Vec<MOp> {
+    let mut ops = vec![];
+    let mut depth = 0usize;
+    let n1 = rng.range(1, size as i64) as usize;
+    for _ in 0..n1 {
+        match rng.below(12) {
+            0 | 1 => {
+                ops.push(MOp::Begin);
+                depth += 1;
+            }
+            2 if depth > 0 && rng.chance(1, 2) => {
+                ops.push(MOp::End);
+                depth -= 1;
+            }
+            3..=6 => ops.push(gen_assign(rng, depth)),
+            7..=10 => ops.push(gen_define(rng, depth)),
+            _ => ops.push(gen_read(rng)),
+        }
+    }
+    ops.push(MOp::Ckpt);
+    let reads = |ops: &mut Vec<MOp>, rng: &mut Rng| {
+        for _ in 0..rng.range(2, 6) {
+            ops.push(gen_read(rng));
+        }
+    };
+    reads(&mut ops, rng);
+    loop {
+        if rng.chance(1, 3) {
+            ops.push(if rng.chance(1, 2) { gen_assign(rng, depth) } else { gen_define(rng, depth) });
+        }
+        if depth == 0 {
+            break;
+        }
+        ops.push(MOp::End);
+        depth -= 1;
+        reads(&mut ops, rng);
+    }
+    if rng.chance(1, 8) {
+        ops.push(MOp::End); // one `}` too many: an error after the checkpoint
+    }
+    reads(&mut ops, rng);
+    ops
+}
+
+/// Unmodelled state: (line for P1, lines for P2 that make it observable). P2 lines are repeated
+/// after every `}` that closes a group left open by P1.
+const FEATURES: &[(&str, &str)] = &[
+    (r"\def\mA#1#2{<#2#1>}", r"\mA xy"),
+    (r"\def\mB#1.{(#1)}", r"\mB abc."),
+    (r"\long\def\mC#1{[#1]}", r"\mC{pq}"),
+    (r"\catcode`\@=11 \def\a@b{AT}", r"\a@b \the\catcode`\@"),
+    (r"\catcode`\Q=13 \defQ{q!}", r"Q \the\catcode`\Q"),
+    (r"\catcode`\~=13 \def~{tilde}", r"~"),
+    (r"\catcode`\~=13 \def\mT{T}\let~=\mT", r"~"),
+    (r"\catcode`\~=13 \chardef~=66 ", r"~"),
+    (r"\catcode`\~=13 \gdef~{gtilde}", r"~"),
+    (r"\catcode`\~=13 \countdef~=5 ~=77 ", r"\the~"),
+    (r"\endlinechar=-1 ", r"\the\endlinechar"),
+    (r"\endlinechar=32 ", r"\the\endlinechar"),
+    (r"\toks3={a\relax b#}", r"\the\toks3"),
+    (r"\toks2={x}\toksdef\tA=2 ", r"\the\tA \tA={y}\the\toks2"),
+    (r"\newInt\nA \nA=5 ", r"\the\nA"),
+    (r"\newIntArray\nB 4 \nB 2=9 ", r"\the\nB 2 \nB 3=1 \the\nB 3"),
+    (r"\globaldefs=1 ", r"{\count9=3 }\the\count9 \the\globaldefs"),
+    (r"\globaldefs=-1 ", r"{\global\count8=3 }\the\count8 \the\globaldefs"),
+    (r"\batchmode", r""),
+    (r"\scrollmode", r""),
+    (r"\nonstopmode", r""),
+    (r"\skip3=1pt plus 2fil minus 3pt ", r"\the\skip3"),
+    (r"\dimen2=1.5pt ", r"\the\dimen2"),
+    (r"\mathcode`\a=29025 ", r"\the\mathcode`\a"),
+    (r"\catcode 300=11 \mathcode 301=5 ", r"\the\catcode 300 \the\mathcode 301"),
+    (r"\mathchardef\mM=29025 ", r"\the\mM"),
+    (r"\chardef\mK=75 ", r"\mK \the\mK"),
+    (r"\def\mD{\mE}", r"\def\mE{late}\mD"),
+    (r"\let\lr=\relax \let\lc=\count \let\lt=\the \let\ld=\def \let\ll=\let ", r"\lr \lc1=3 \lt\lc1 \ld\zz{Z}\zz \ll\zy=\zz \zy"),
+    (r"\let\lg=\global \let\lx=\expandafter \let\ln=\noexpand \let\la=\advance ", r"\lg\count2=4 \la\count2 by 2 \the\count2 \def\zq{Q}\lx\ln\zq"),
+    (r"\let\lf=\fi \let\le=\else \let\li=\iftrue \let\lo=\or ", r"\li a\le b\lf \ifcase 1 x\lo y\lf"),
+    (r"\let\lm=\multiply \let\lv=\divide \let\ly=\year \let\lj=\jobname ", r"\count4=6 \lm\count4 by 7 \lv\count4 by 2 \the\count4 \ly=5 \the\year \lj"),
+    (r"\count1=5 \advance\count1 by 3 \multiply\count1 by 2 ", r"\the\count1"),
+    (r"\year=1999 \month=2 \day=30 \time=77 ", r"\the\year \the\month \the\day \the\time"),
+    (r"\dumpFormat=1 \dumpValidate=1 ", r"\the\dumpFormat \the\dumpValidate"),
+    (r"\countdef\cA=6 \cA=11 \let\cB=\cA ", r"\the\cA \the\cB \cB=12 \the\count6"),
+    (r"\def\mX{X}\let\mY=\mX \def\mX{X2}", r"\mX\mY"),
+    (r"\gdef\mG{G}\global\let\mH=\mG \global\count7=70 \global\toks4={g}", r"\mG\mH\the\count7 \the\toks4"),
+    (r"\count5=1 \global\count5=2 \count5=3 ", r"\the\count5"),
+    (r"\catcode`\^=7 \catcode`\|=12 ", r"\the\catcode`\^ |"),
+    (r"\let\sA= A\let\sB=\sA ", r"\sA\sB"),
+    (r"\tracingmacros=0 ", r"\the\tracingmacros"),
+    (r"word ", r"next"),
+    (r"word", r"next"),
+];
+
+/// Conditionals left open by P1: (opener at the end of a P1 line, closer text for P2).
+const CONDS: &[(&str, &str)] = &[
+    (r"\iftrue t", r"T\else F\fi"),
+    (r"\iffalse\else e", r"E\fi"),
+    (r"\ifcase 2 a\or b\or c", r"C\or d\else z\fi"),
+    (r"\ifcase 9 a\or b\else c", r"C\fi"),
+    (r"\ifnum 1<2 l", r"L\else G\fi"),
+    (r"\ifodd 3 o", r"O\fi"),
+    (r"\iftrue\iffalse\else\ifcase 0 n", r"N\or m\fi i\fi o\else q\fi"),
+];
+
+fn gen_tex(rng: &mut Rng, size: usize) -> String {
+    let mut p1: Vec<String> = vec![];
+    let mut probes: Vec<&str> = vec![];
+    let mut closers: Vec<String> = vec![]; // in opening order
+    let n = rng.range(1, size as i64);
+    for _ in 0..n {
+        match rng.below(10) {
+            0 | 1 => {
+                p1.push("{".into());
+                closers.push("}".into());
+            }
+            2 => {
+                let (o, c) = *rng.pick(CONDS);
+                p1.push(o.into());
+                closers.push(c.into());
+            }
+            _ => {
+                let (a, b) = *rng.pick(FEATURES);
+                let g = if rng.chance(1, 6) && a.starts_with("\\def") { "\\global" } else { "" };
+                p1.push(format!("{g}{a}"));
+                if !b.is_empty() {
+                    probes.push(b);
+                }
+            }
+        }
+    }
+    let mut p2: Vec<String> = vec![];
+    let all_probes = |p2: &mut Vec<String>| {
+        for b in &probes {
+            p2.push(format!("/{b}"));
+        }
+    };
+    all_probes(&mut p2);
+    // conditionals and groups nest independently in TeX, but a conditional's closer must not
+    // be skipped by another conditional: close in reverse order
+    for c in closers.iter().rev() {
+        p2.push(c.clone());
+        if c == "}" {
+            all_probes(&mut p2);
+        }
+    }
+    format!("tex {}<NL><CP>{}<NL>", p1.join("<NL>"), p2.join("<NL>"))
+}
+
+// ------------------------------------------------------------------------------------------
+// The property
+// ------------------------------------------------------------------------------------------
+
 struct C08;
+
+impl C08 {
+    /// A vs B for the three formats: tags, I vs S failures. Returns A and whether all agree.
+    fn compare_runs(&self, p1: &str, p2: &str, drv: &mut Driver, o: &mut CaseOutcome) -> (Obs, bool) {
+        let (a, bs) = run_all(p1, p2);
+        if !matches!(a.r1, Run::Ok(_)) {
+            o.tag(format!("p1-fails:{}", a.r1.class()));
+            return (a, false);
+        }
+        o.nontrivial = true;
+        o.tag(format!("p2:{}", a.r2.as_ref().map(|r| r.class()).unwrap_or_default()));
+        let wa = obs_words(&a);
+        let mut diffs: Vec<(Fmt, Kind, String, String)> = vec![];
+        for (f, b) in &bs {
+            // the three A-side runs of P1 must agree (determinism of the harness itself)
+            if b.r1 != a.r1 {
+                o.fail(Kind::ImplVsSpec, f.name(), "P1 is not deterministic", format!("{:?} vs {:?}", a.r1, b.r1));
+                continue;
+            }
+            let verdict = drv.ask(&format!("same {} | {}", wa, obs_words(b)));
+            let d = diff_signature(&a, b);
+            match (verdict.as_str(), d) {
+                ("1", None) => {}
+                ("0", Some((k, sig, det))) => diffs.push((*f, k, sig, det)),
+                (v, d) => o.fail(
+                    Kind::ModelVsSpec,
+                    f.name(),
+                    "spec verdict and harness diff disagree",
+                    format!("driver said {v}, harness diff {:?}", d.map(|x| x.1)),
+                ),
+            }
+        }
+        let all_same_sig = diffs.len() == 3 && diffs.iter().all(|d| d.2 == diffs[0].2);
+        for (f, k, sig, det) in &diffs {
+            let sig = if all_same_sig { sig.clone() } else { format!("{sig} [{} only]", f.name()) };
+            o.fail(*k, f.name(), sig, format!("{} checkpoint: {det}", f.name()));
+            if all_same_sig {
+                break;
+            }
+        }
+        (a, diffs.is_empty())
+    }
+
+    fn run_tex(&self, body: &str, drv: &mut Driver) -> CaseOutcome {
+        let mut o = CaseOutcome::default();
+        let Some((p1, p2)) = body.split_once("<CP>") else {
+            o.fail(Kind::ImplVsModel, "case", "malformed case", body);
+            return o;
+        };
+        let (p1, p2) = (decode(p1), decode(p2));
+        o.tag("kind:tex");
+        let depth = p1.matches('{').count() as i64 - p1.matches('}').count() as i64;
+        o.tag(format!("tex-open-braces:{}", depth.clamp(0, 4)));
+        if p1.contains("\\if") {
+            o.tag("tex-conditional-in-p1");
+        }
+        self.compare_runs(&p1, &p2, drv, &mut o);
+        o
+    }
+
+    fn run_ops(&self, body: &str, drv: &mut Driver) -> CaseOutcome {
+        let mut o = CaseOutcome::default();
+        o.tag("kind:ops");
+        let ints = parse_i64s(body);
+        let Some(ops) = dec_ops(&ints) else {
+            o.fail(Kind::ImplVsModel, "case", "malformed case", body);
+            return o;
+        };
+        let reply = drv.ask(&format!("p {}", join(&ints)));
+        let parts: Vec<&str> = reply.split(" | ").collect();
+        if parts.len() != 3 {
+            o.fail(Kind::ImplVsModel, "driver", "driver rejected the case", reply);
+            return o;
+        }
+        let (m_plain, m_ck) = (parts[0], parts[1]);
+        // M vs S: the theorem
+        if m_plain != m_ck {
+            o.fail(Kind::ModelVsSpec, "model", "model: checkpoint changes the run", format!("without: {m_plain}; with: {m_ck}"));
+        }
+        // the model's outputs, one per op that ran (the marker has none)
+        let words: Vec<&str> = m_ck.split(' ').collect();
+        let mut wi = 0usize;
+        let (mut p1, mut p2) = (String::new(), String::new());
+        p1.push_str("\\catcode`\\~=13 \\catcode`\\!=13 \\catcode`\\?=13 \\catcode`\\@=13 ");
+        let mut expect1: Vec<Option<String>> = vec![];
+        let mut expect2: Vec<Option<String>> = vec![];
+        let mut after = false;
+        let mut depth = 0i64;
+        let mut model_err: Option<&str> = None;
+        let n_ops = ops.len();
+        for (i, op) in ops.iter().enumerate() {
+            if *op == MOp::Ckpt {
+                after = true;
+                o.tag(format!("ckpt-depth:{}", depth.min(4)));
+                continue;
+            }
+            let w = if model_err.is_some() { "u" } else { words.get(wi).copied().unwrap_or("u") };
+            wi += 1;
+            if matches!(w, "EG" | "EP" | "PANIC") && model_err.is_none() {
+                model_err = Some(w);
+            }
+            match op {
+                MOp::Begin => depth += 1,
+                MOp::End => depth -= 1,
+                MOp::Define { tk, dk, pre, .. } => {
+                    if !after {
+                        o.tag(format!("p1-def:{}{}", if *tk == 1 { "active-" } else { "" }, dk));
+                        if *pre > 0 && depth > 0 {
+                            o.tag("p1-global-def-in-group");
+                        }
+                    }
+                }
+                MOp::Assign { kind, pre, .. } => {
+                    if !after {
+                        o.tag(format!("p1-assign:{kind}"));
+                        if *pre > 0 && depth > 0 {
+                            o.tag("p1-global-assign-in-group");
+                        }
+                    }
+                }
+                MOp::ReadCmd { .. } if after => o.tag(format!("p2-read-cmd:{}", &w[..1.min(w.len())])),
+                _ => {}
+            }
+            let r = render_op(op, w, i + 1 == n_ops);
+            let (p, e) = if after { (&mut p2, &mut expect2) } else { (&mut p1, &mut expect1) };
+            p.push_str(&r.tex);
+            if r.probe {
+                e.push(r.expect);
+            }
+        }
+        p1.push('\n');
+        p2.push('\n');
+        let (a, same) = self.compare_runs(&p1, &p2, drv, &mut o);
+        if !matches!(a.r1, Run::Ok(_)) {
+            // the model must agree that P1 does not get to the checkpoint
+            return o;
+        }
+        if !same {
+            return o; // I vs S already reported; M describes the repaired code
+        }
+        // I vs M: every probe of P1 and P2
+        let check = |o: &mut CaseOutcome, what: &str, out: &str, expect: &[Option<String>], complete: bool| {
+            let got = brackets(out);
+            if complete && got.len() != expect.len() {
+                o.fail(Kind::ImplVsModel, "reads", format!("{what}: number of reads"), format!("model expects {} probes, output has {}: {out:?}", expect.len(), got.len()));
+                return;
+            }
+            for (g, e) in got.iter().zip(expect.iter()) {
+                if let Some(e) = e {
+                    if g != e {
+                        o.fail(Kind::ImplVsModel, "reads", format!("{what}: a read differs from the model"), format!("model {e:?}, real {g:?} in {out:?}"));
+                        return;
+                    }
+                }
+            }
+        };
+        check(&mut o, "before the checkpoint", a.r1.out(), &expect1, true);
+        if let Some(r2) = &a.r2 {
+            match (r2, model_err) {
+                (Run::Ok(out), None) => check(&mut o, "after the checkpoint", out, &expect2, true),
+                (Run::Err(c), Some("EG")) if c.contains("end") => o.tag("p2-no-group-to-end"),
+                (Run::Err(c), None) if c.contains("undefined") && ops.last().map(|l| matches!(l, MOp::ReadCmd { .. })).unwrap_or(false) && words.last() == Some(&"?") => {
+                    o.tag("p2-undefined-last")
+                }
+                (r, m) => o.fail(Kind::ImplVsModel, "reads", "after the checkpoint: result class differs from the model", format!("real {}, model {:?}", r.class(), m)),
+            }
+        }
+        o
+    }
+
+    /// `NameTableSound` on the real built-ins.
+    fn run_names(&self, _drv: &mut Driver) -> CaseOutcome {
+        let mut o = CaseOutcome::default();
+        o.tag("kind:names");
+        o.nontrivial = true;
+        let built_ins = texlang_stdlib::built_in_commands::<StdLibState>();
+        let mut names: Vec<&str> = built_ins.keys().copied().filter(|n| n.chars().all(|c| c.is_ascii_alphabetic())).collect();
+        names.sort();
+        let alias = |i: usize| format!("\\q{}{}", (b'a' + (i / 26) as u8) as char, (b'a' + (i % 26) as u8) as char);
+        let mut src = String::new();
+        for (i, n) in names.iter().enumerate() {
+            src.push_str(&format!("\\let{}=\\{} ", alias(i), n));
+        }
+        // every variable built-in assigned inside a group: (name, assignment, save-stack field)
+        let vars: &[(&str, &str, &str)] = &[
+            ("count", "\\count 3=1 ", "i32"),
+            ("dimen", "\\dimen 3=1pt ", "dimen"),
+            ("skip", "\\skip 3=1pt ", "glue"),
+            ("toks", "\\toks 3={a}", "token_list"),
+            ("catcode", "\\catcode 200=11 ", "catcode"),
+            ("mathcode", "\\mathcode 200=1 ", "math_code"),
+            ("globaldefs", "\\globaldefs=0 ", "i32"),
+            ("endlinechar", "\\endlinechar=13 ", "i32"),
+            ("year", "\\year=1 ", "i32"),
+            ("month", "\\month=1 ", "i32"),
+            ("day", "\\day=1 ", "i32"),
+            ("time", "\\time=1 ", "i32"),
+            ("tracingmacros", "\\tracingmacros=0 ", "i32"),
+            ("dumpFormat", "\\dumpFormat=0 ", "i32"),
+            ("dumpValidate", "\\dumpValidate=0 ", "i32"),
+        ];
+        src.push('{');
+        for (_, a, _) in vars {
+            src.push_str(a);
+        }
+        src.push('\n');
+        let r = caught(|| {
+            let mut vm = new_vm();
+            let r1 = run_src(&mut vm, "names.tex", &src);
+            (r1, serde_json::to_value(&vm).unwrap())
+        });
+        let (r1, v) = match r {
+            Ok(x) => x,
+            Err(p) => {
+                o.fail(Kind::ImplPanic, "names", format!("serialising every built-in alias panics at {}", strip_msg(&p)), p);
+                return o;
+            }
+        };
+        if !matches!(r1, Run::Ok(_)) {
+            o.fail(Kind::ImplVsModel, "names", "the name-table program does not run", format!("{r1:?}"));
+            return o;
+        }
+        // the serialised interner: key k ↦ name
+        let interner = &v["internal"]["cs_name_interner"];
+        let buffer = interner["buffer"].as_str().unwrap_or("");
+        let ends: Vec<usize> = interner["ends"].as_array().map(|a| a.iter().filter_map(|x| x.as_u64()).map(|x| x as usize).collect()).unwrap_or_default();
+        let resolve = |k: u64| -> String {
+            let k = k as usize;
+            if k == 0 || k > ends.len() {
+                return format!("<key {k}>");
+            }
+            let start = if k == 1 { 0 } else { ends[k - 2] };
+            buffer[start..ends[k - 1]].to_string()
+        };
+        let key_of = |name: &str| -> Option<u64> { (1..=ends.len() as u64).find(|&k| resolve(k) == name) };
+        let cmds = &v["commands_map"]["commands"]["backing_container"];
+        let mut checked = 0;
+        for (i, n) in names.iter().enumerate() {
+            let a = alias(i);
+            let Some(k) = key_of(&a[1..]) else {
+                o.fail(Kind::ImplVsModel, "names", "alias not interned", a);
+                continue;
+            };
+            let entry = &cmds[k.to_string()];
+            match entry.get("BuiltIn").and_then(|x| x.as_u64()) {
+                Some(b) if resolve(b) == *n => checked += 1,
+                Some(b) => o.fail(
+                    Kind::ImplVsSpec,
+                    "names",
+                    "name table: a built-in is serialised under another built-in's name",
+                    format!("\\let{a}=\\{n} is serialised as BuiltIn({:?})", resolve(b)),
+                ),
+                None => o.fail(Kind::ImplVsSpec, "names", "name table: a built-in alias is not serialised as BuiltIn", format!("\\{n}: {entry}")),
+            }
+        }
+        o.tag(format!("names-builtins-checked:{checked}"));
+        let save = &v["save_stack"][0];
+        for (n, _, field) in vars {
+            let want = key_of(n);
+            let found = save[*field].as_array().map(|es| es.iter().any(|e| e[0].as_u64() == want)).unwrap_or(false);
+            if found {
+                o.tag("names-variable-checked");
+            } else {
+                o.fail(
+                    Kind::ImplVsSpec,
+                    "names",
+                    "name table: a saved variable is serialised under another name",
+                    format!("\\{n}: save stack field {field} = {}", save[*field]),
+                );
+            }
+        }
+        o
+    }
+}
 
 impl Property for C08 {
     fn id(&self) -> &'static str {
         "C08"
     }
     fn rule(&self) -> String {
-        "exploration".into()
+        "names: NameTableSound on the real built-in map (every alphabetic built-in name aliased by \\let, every variable built-in saved in a group; serialised names resolved through the serialised interner). \
+         ops: hand-written boundary programs, then random programs of modelled operations: P1 = 1..size ops over {, }, assignments to \\count/\\dimen/\\skip/\\toks 0..3, \\catcode/\\mathcode 200..203, \\globaldefs (-1,0,1), \\endlinechar (-1,13,32), \\year \\month \\day \\time, \
+         definitions of 5 control sequences and 4 active characters by \\def \\gdef \\chardef \\mathchardef \\countdef \\toksdef \\let (to a character, to another target, to a built-in primitive), 0..2 \\global prefixes; the checkpoint; P2 = reads, then every open group closed with reads after each } (sometimes one } too many, sometimes more definitions). \
+         tex: random selections from a table of unmodelled state (parameterised and delimited macros, \\long, catcode changes incl. active letters and code points > 127, \\endlinechar, token lists with control sequences, \\newInt/\\newIntArray, interaction modes, glue, \\let to 20 primitives incl. conditionals, interned-but-undefined names, pending output white space) inside open groups and open conditionals (\\iftrue, \\iffalse\\else, \\ifcase, \\ifnum, \\ifodd, nested) that P2 closes; every probe is repeated after every closing brace. \
+         Each case runs 4 VMs (no checkpoint, JSON, MessagePack, bincode). Non-trivial = P1 runs to its end without error (a checkpoint is taken); distinct = distinct case string."
+            .into()
     }
-    fn generate(&mut self, _ctx: &Ctx, _rng: &mut Rng) -> Vec<String> {
-        vec![]
+    fn builtin_corpus(&self) -> Vec<String> {
+        let mut v: Vec<String> = vec!["names".into()];
+        for s in [
+            // C08-a witness (DESIGN 5.9)
+            r"tex \catcode`\~=13 \def~{A}<NL><CP>~<NL>",
+            // C08-b witness: pending white space of the script writer
+            r"tex a <NL><CP>b<NL>",
+            r"tex a<NL><CP>b<NL>",
+            // the repository's own serde tests, as pairs
+            r"tex \def\HW{Hello World} <NL><CP>\HW<NL>",
+            r"tex \iftrue true <NL><CP>branch \else false branch \fi<NL>",
+            r"tex \ifcase 2 a\or b\or c <NL><CP>d \or e \fi<NL>",
+            r"tex \count 100 200 <NL><CP>\the \count 100<NL>",
+            r"tex \countdef \A 100 \A = 200 <NL><CP>\the \A<NL>",
+            r"tex \count 1 1 {\count 1 2 {\count 1 3 <NL><CP>\the\count 1}\the\count 1}\the\count 1<NL>",
+            r"tex \catcode 48 11 <NL><CP>\the\catcode 48<NL>",
+            r"tex \catcode 480 11 <NL><CP>\the\catcode 480<NL>",
+            r"tex {\catcode 48 11 <NL><CP>\the\catcode 48}\the\catcode 48<NL>",
+            r"tex \mathcode 480 11 <NL><CP>\the\mathcode 480<NL>",
+            r"tex \def\A{Hello World}\let\B=\A <NL><CP>\A \B<NL>",
+            r"tex \let\A=B <NL><CP>\A<NL>",
+            r"tex \chardef\Hello = `\+ <NL><CP>\Hello<NL>",
+            r"tex \mathchardef\Hello = `\+ <NL><CP>\Hello<NL>",
+            r"tex \newInt\a \a=-1 <NL><CP>\the\a<NL>",
+            r"tex \newIntArray\a 20 \a 3=-1 <NL><CP>\the\a 3<NL>",
+            r"tex \def\A#1#2{#2#1}<NL><CP>\A xy<NL>",
+            // every kind of saved value in nested groups, global in between
+            r"tex \count1=3 {\count1=5 {\global\count1=7 \count1=8<NL><CP>\the\count1}\the\count1}\the\count1<NL>",
+            r"tex {\dimen1=2pt \skip1=3pt plus 1fil \toks1={ab}\catcode 200=11 \mathcode 200=7 {\dimen1=4pt \toks1={cd}<NL><CP>\the\dimen1 \the\skip1 \the\toks1 \the\catcode 200 \the\mathcode 200}\the\dimen1 \the\toks1}\the\dimen1 \the\skip1 \the\toks1 \the\catcode 200 \the\mathcode 200<NL>",
+            r"tex \globaldefs=1 <NL><CP>{\count1=5 }\the\count1 \the\globaldefs<NL>",
+            r"tex \endlinechar=-1 <NL><CP>a<NL>b<NL>\the\endlinechar<NL>",
+            // one } too many after the checkpoint
+            r"tex {<NL><CP>}}<NL>",
+            // active characters inside groups
+            r"tex \catcode`\~=13 \def~{A}{\def~{B}<NL><CP>~}~<NL>",
+            r"tex \catcode`\~=13 {\gdef~{G}<NL><CP>~}~<NL>",
+            r"tex {<NL><CP>}x<NL>",
+        ] {
+            v.push(s.to_string());
+        }
+        let op = |ops: &[MOp]| format!("ops {}", join(&enc_ops(ops)));
+        // modelled boundary programs
+        v.push(op(&[MOp::Define { pre: 0, tk: 1, tn: 0, dk: 0, a: 5, b: 0 }, MOp::Ckpt, MOp::ReadCmd { tk: 1, tn: 0 }]));
+        v.push(op(&[MOp::Define { pre: 0, tk: 0, tn: 0, dk: 0, a: 5, b: 0 }, MOp::Ckpt, MOp::ReadCmd { tk: 0, tn: 0 }]));
+        v.push(op(&[
+            MOp::Begin,
+            MOp::Assign { pre: 0, kind: 0, idx: 1, val: 7 },
+            MOp::Define { pre: 0, tk: 0, tn: 2, dk: 4, a: 1, b: 0 },
+            MOp::Ckpt,
+            MOp::ReadCmd { tk: 0, tn: 2 },
+            MOp::End,
+            MOp::ReadVar { kind: 0, idx: 1 },
+            MOp::ReadCmd { tk: 0, tn: 2 },
+        ]));
+        for kind in 0..=5 {
+            let val = [5, 3, 4, 17, 11, 291][kind as usize];
+            v.push(op(&[
+                MOp::Assign { pre: 0, kind, idx: 1, val },
+                MOp::Begin,
+                MOp::Assign { pre: 0, kind, idx: 1, val: val + 1 },
+                MOp::Begin,
+                MOp::Assign { pre: 0, kind, idx: 2, val },
+                MOp::Ckpt,
+                MOp::ReadVar { kind, idx: 1 },
+                MOp::End,
+                MOp::ReadVar { kind, idx: 1 },
+                MOp::ReadVar { kind, idx: 2 },
+                MOp::End,
+                MOp::ReadVar { kind, idx: 1 },
+            ]));
+        }
+        for p in [0, 1, 2, 3, 4, 20, 21, 22, 25] {
+            for tk in [0, 1] {
+                v.push(op(&[MOp::Define { pre: 0, tk, tn: 1, dk: 10, a: p, b: 0 }, MOp::Ckpt, MOp::ReadCmd { tk, tn: 1 }]));
+            }
+        }
+        // the pending \global flag cannot be open at a line boundary; \globaldefs can
+        v.push(op(&[
+            MOp::Assign { pre: 0, kind: 6, idx: 0, val: 1 },
+            MOp::Begin,
+            MOp::Ckpt,
+            MOp::Assign { pre: 0, kind: 0, idx: 0, val: 9 },
+            MOp::Define { pre: 0, tk: 1, tn: 1, dk: 0, a: 1, b: 0 },
+            MOp::End,
+            MOp::ReadVar { kind: 0, idx: 0 },
+            MOp::ReadCmd { tk: 1, tn: 1 },
+        ]));
+        v
     }
-    fn run_case(&mut self, case: &str, _drv: &mut Driver) -> CaseOutcome {
-        let mut o = CaseOutcome::default();
+    fn generate(&mut self, ctx: &Ctx, rng: &mut Rng) -> Vec<String> {
+        let mut v = vec![];
+        let (n_ops, n_tex) = if ctx.thorough { (3500, 2500) } else { (330, 250) };
+        let mut r = rng.fork();
+        for i in 0..n_ops {
+            let size = [3, 6, 10, 16, 24][i % 5];
+            v.push(format!("ops {}", join(&enc_ops(&gen_ops(&mut r, size)))));
+        }
+        let mut r = rng.fork();
+        for i in 0..n_tex {
+            let size = [2, 4, 7, 10][i % 4];
+            v.push(gen_tex(&mut r, size));
+        }
+        v
+    }
+    fn run_case(&mut self, case: &str, drv: &mut Driver) -> CaseOutcome {
+        if case == "names" {
+            return self.run_names(drv);
+        }
+        if let Some(b) = case.strip_prefix("tex ") {
+            return self.run_tex(b, drv);
+        }
+        if let Some(b) = case.strip_prefix("ops ") {
+            return self.run_ops(b, drv);
+        }
         if let Some(p1) = case.strip_prefix("dump ") {
             let mut vm = new_vm();
             println!("{:?}", run_src(&mut vm, "p1.tex", &decode(p1)));
@@ -168,35 +1205,115 @@ impl Property for C08 {
             println!("save_stack: {}", v["save_stack"]);
             let mut i = v["internal"].clone();
             i.as_object_mut().unwrap().remove("tracer");
-            println!("internal: {}", i);
+            println!("internal: {i}");
             for (k, x) in v["state"].as_object().unwrap() {
                 let t = x.to_string();
-                if t.len() < 300 { println!("state.{k}: {t}"); } else { println!("state.{k}: [{} bytes]", t.len()); }
+                if t.len() < 300 {
+                    println!("state.{k}: {t}");
+                } else {
+                    println!("state.{k}: [{} bytes]", t.len());
+                }
             }
-            return o;
+            return CaseOutcome::default();
         }
-        let body = case.strip_prefix("tex ").unwrap();
-        let (p1, p2) = body.split_once("<CP>").unwrap();
-        let (p1, p2) = (decode(p1), decode(p2));
-        let a = run_pair(&p1, &p2, Fmt::None);
-        println!("A: r1={:?} r2={:?}", a.r1, a.r2);
-        let mut cat = p1.clone();
-        cat.push_str(&p2);
-        let mut vm = new_vm();
-        println!("C: {:?}", run_src(&mut vm, "c.tex", &cat));
-        for f in [Fmt::Json, Fmt::MsgPack, Fmt::Bincode] {
-            let t = std::time::Instant::now();
-            let b = run_pair(&p1, &p2, f);
-            println!("{}: ck={:?} r2={:?} {:?}", f.name(), b.ck, b.r2, t.elapsed());
-            if let (Some(x), Some(y)) = (&a.fin, &b.fin) {
-                println!("   final-state diff: {:?}", diff_components(x, y));
-            }
-            if b.r2 != a.r2 {
-                o.fail(Kind::ImplVsSpec, f.name(), format!("A={} B={}", a.r2.as_ref().map(|r| r.class()).unwrap_or_default(), b.r2.as_ref().map(|r| r.class()).unwrap_or_default()), "");
-            }
-        }
-        let _ = BTreeMap::<String, String>::new();
+        let mut o = CaseOutcome::default();
+        o.fail(Kind::ImplVsModel, "case", "unknown case kind", case);
         o
+    }
+    fn shrink(&self, case: &str) -> Vec<String> {
+        let mut out = vec![];
+        if let Some(b) = case.strip_prefix("ops ") {
+            let Some(ops) = dec_ops(&parse_i64s(b)) else { return out };
+            let n = ops.len();
+            let emit = |keep: &dyn Fn(usize) -> bool, out: &mut Vec<String>| {
+                let v: Vec<MOp> = ops.iter().enumerate().filter(|(i, o)| **o == MOp::Ckpt || keep(*i)).map(|(_, o)| o.clone()).collect();
+                if v.len() < n {
+                    out.push(format!("ops {}", join(&enc_ops(&v))));
+                }
+            };
+            emit(&|i| i >= n / 2, &mut out);
+            emit(&|i| i < n / 2, &mut out);
+            for chunk in [4usize, 2] {
+                let mut s = 0;
+                while s < n {
+                    emit(&|i| i < s || i >= s + chunk, &mut out);
+                    s += chunk;
+                }
+            }
+            for k in 0..n {
+                emit(&|i| i != k, &mut out);
+            }
+            // drop a `{` together with a later `}`
+            for i in 0..n {
+                if ops[i] != MOp::Begin {
+                    continue;
+                }
+                for j in i + 1..n {
+                    if ops[j] == MOp::End {
+                        emit(&|x| x != i && x != j, &mut out);
+                    }
+                }
+            }
+            // no \global
+            let v: Vec<MOp> = ops
+                .iter()
+                .map(|o| match o {
+                    MOp::Assign { kind, idx, val, .. } => MOp::Assign { pre: 0, kind: *kind, idx: *idx, val: *val },
+                    MOp::Define { tk, tn, dk, a, b, .. } => MOp::Define { pre: 0, tk: *tk, tn: *tn, dk: *dk, a: *a, b: *b },
+                    o => o.clone(),
+                })
+                .collect();
+            if v != ops {
+                out.push(format!("ops {}", join(&enc_ops(&v))));
+            }
+        } else if let Some(b) = case.strip_prefix("tex ") {
+            let Some((p1, p2)) = b.split_once("<CP>") else { return out };
+            let l1: Vec<&str> = p1.split("<NL>").filter(|l| !l.is_empty()).collect();
+            let l2: Vec<&str> = p2.split("<NL>").filter(|l| !l.is_empty()).collect();
+            let build = |a: &[&str], b: &[&str]| format!("tex {}<NL><CP>{}<NL>", a.join("<NL>"), b.join("<NL>"));
+            if l2.len() > 1 {
+                out.push(build(&l1, &l2[..l2.len() / 2]));
+                out.push(build(&l1, &l2[l2.len() / 2..]));
+            }
+            if l1.len() > 1 {
+                out.push(build(&l1[..l1.len() / 2], &l2));
+                out.push(build(&l1[l1.len() / 2..], &l2));
+            }
+            for k in 0..l2.len() {
+                let mut x = l2.clone();
+                x.remove(k);
+                out.push(build(&l1, &x));
+            }
+            for k in 0..l1.len() {
+                let mut x = l1.clone();
+                x.remove(k);
+                out.push(build(&x, &l2));
+            }
+            // a `{` line of P1 together with a `}` line of P2
+            for i in 0..l1.len() {
+                if l1[i] != "{" {
+                    continue;
+                }
+                for j in 0..l2.len() {
+                    if l2[j] == "}" {
+                        let (mut x, mut y) = (l1.clone(), l2.clone());
+                        x.remove(i);
+                        y.remove(j);
+                        out.push(build(&x, &y));
+                    }
+                }
+            }
+            // a conditional opener of P1 together with its closer in P2
+            for (oc, cc) in CONDS {
+                if let (Some(i), Some(j)) = (l1.iter().position(|l| l == oc), l2.iter().position(|l| l == cc)) {
+                    let (mut x, mut y) = (l1.clone(), l2.clone());
+                    x.remove(i);
+                    y.remove(j);
+                    out.push(build(&x, &y));
+                }
+            }
+        }
+        out
     }
 }
 
